@@ -591,6 +591,27 @@ func e2eC09(repo, dir string, vals map[string]string) ([]string, error) {
 		}
 	}
 	bad = append(bad, e2eExistingPackage(e)...)
+	// several unknown members in enum:map lines: the same one is reported in every fresh process
+	e.write("en/in.go", "package en\n\nimport \"e2e/en/tg\"\n\n// goverter:converter\n// goverter:enum:unknown @panic\ntype C interface {\n\t// goverter:enum:map Nope1 Red\n\t// goverter:enum:map Nope2 Red\n\t// goverter:enum:map Nope3 Red\n\t// goverter:enum:map Nope4 Red\n\t// goverter:enum:map Nope5 Red\n\tConvert(source A) tg.B\n}\ntype A int\n\nconst (\n\tRed A = iota\n)\n")
+	e.write("en/tg/tg.go", "package tg\n\ntype B int\n\nconst (\n\tRed B = iota\n)\n")
+	enumDiag := map[string]bool{}
+	for i := 0; i < 16; i++ {
+		_, _, se := e.run("gen", "./en")
+		enumDiag[se] = true
+	}
+	if len(enumDiag) > 1 {
+		bad = append(bad, fmt.Sprintf("%d different diagnostics in 16 fresh processes for several unknown members in enum:map lines", len(enumDiag)))
+	}
+	// two faulty converters of the same name in different packages: the diagnostic does not depend on the order of
+	// the package patterns
+	faulty := "package PKG\n\n// goverter:converter\ntype Same interface {\n\tConvert(source In) Out\n}\ntype In struct{ A int }\ntype Out struct{ A, MissingPKG int }\n"
+	e.write("fa/in.go", strings.ReplaceAll(faulty, "PKG", "fa"))
+	e.write("fb/in.go", strings.ReplaceAll(faulty, "PKG", "fb"))
+	_, _, d1 := e.run("gen", "./fa", "./fb")
+	_, _, d2 := e.run("gen", "./fb", "./fa")
+	if d1 != d2 {
+		bad = append(bad, "two faulty converters of the same name: `gen ./fa ./fb` and `gen ./fb ./fa` report different diagnostics ("+firstLine(d1)+" vs "+firstLine(d2)+")")
+	}
 	// several simultaneous faults: the diagnostic is the same in every fresh process
 	e.write("q/in.go", "package q\n\n// goverter:converter\ntype C interface {\n\t// goverter:map A B\n\tA2D(source []A) []D\n\t// goverter:map A B\n\tD2A(source []D) []A\n\t// goverter:map A B\n\tB2C(source []B) []C\n\t// goverter:map A B\n\tC2B(source []C) []B\n}\ntype A struct{ A int }\ntype B struct{ B int }\ntype C struct{ B int }\ntype D struct{ B int }\n")
 	seen := map[string]bool{}
